@@ -559,7 +559,7 @@ def processPublish (s : Server) (i : Nat) (qos : Nat) (dup retain : Bool) (id : 
       -- OnPublish hook
       let mode := assocGet s.pubHook pk.topic
       if mode == some "reject" then (s, [], none)
-      else if mode == some "err" && c.ver == 5 && pk.qos > 0 then ackRes s i 4 id 0x87
+      else if mode == some "err" && c.ver == 5 && pk.qos > 0 then ackRes s i (if pk.qos == 2 then 5 else 4) id 0x87
       else
         let pk := if mode == some "ignore" then { pk with ignore := true } else pk
         let s := if pk.retain then retainMsg s pk else s
